@@ -164,7 +164,8 @@ def _sum_range(rng: ast.Call) -> ast.AST:
 
 @_simplify_math
 def _sum_constants(values: Sequence[ast.AST]) -> ast.AST:
-    expr = " + ".join(core.unparse(node).strip() for node in values)
+    # Joined as text, so every term is put between parentheses: 1 << 2 and 3 are (1 << 2) + (3)
+    expr = " + ".join(f"({core.unparse(node).strip()})" for node in values)
     return core.parse(expr)
 
 
